@@ -11,6 +11,8 @@ use std::sync::{Arc, Condvar, Mutex};
 
 /// schedule entry meaning "keep running the thread that ran last, if it can"
 pub const STAY: u8 = 255;
+/// schedule entry: force a switch to the next runnable thread
+pub const NEXT: u8 = 254;
 
 #[derive(Clone, Copy, PartialEq, Eq, Debug)]
 enum Turn {
@@ -232,6 +234,8 @@ pub fn run_threads(ctx: &Arc<RunCtx>, schedule: &[u8], max_steps: usize, bodies:
             },
             (STAY, Some(l)) if runnable.contains(&l) => l,
             (STAY, _) => runnable[0],
+            // forced preemption: the next runnable thread after the one that ran last
+            (NEXT, Some(l)) => *runnable.iter().find(|i| **i > l).unwrap_or(&runnable[0]),
             (p, _) => runnable[p as usize % runnable.len()],
         };
         if let Some(l) = last {
@@ -259,6 +263,21 @@ pub fn run_threads(ctx: &Arc<RunCtx>, schedule: &[u8], max_steps: usize, bodies:
 /// Generate a schedule of `len` picks. `stickiness` in 0..=100 is the
 /// percentage of STAY entries (few preemptions explore "almost sequential"
 /// executions, which is where most atomicity bugs live; 0 is a random walk).
+/// PCT-style schedule: the thread picked first runs on, except at `d` randomly
+/// placed forced preemptions (`NEXT`) among the first `len` schedule points —
+/// the "one or two context switches at the right place" executions that
+/// check-then-act defects need, which a sticky random walk reaches only with
+/// probability (stickiness)^(length of the other thread's critical path).
+pub fn gen_schedule_pct(rng: &mut crate::rng::Rng, len: usize, d: usize) -> Vec<u8> {
+    let mut v = vec![STAY; len.max(1)];
+    v[0] = rng.below(16) as u8;
+    for _ in 0..d {
+        let at = 1 + rng.usize_below(len.max(2) - 1);
+        v[at] = NEXT;
+    }
+    v
+}
+
 pub fn gen_schedule(rng: &mut crate::rng::Rng, len: usize, stickiness: u64) -> Vec<u8> {
     (0..len)
         .map(|_| if rng.below(100) < stickiness { STAY } else { rng.below(16) as u8 })
